@@ -5,7 +5,7 @@ import (
 )
 
 // atom appends one element of the escape alphabet to (value, spelling).
-const nAtoms = 18
+const nAtoms = 19
 
 func atom(name string, kind int, val, sp []byte) ([]byte, []byte) {
 	switch kind {
@@ -46,6 +46,14 @@ func atom(name string, kind int, val, sp []byte) ([]byte, []byte) {
 		return append(val, 0xF0, 0x9F, 0x98, 0x80), append(sp, '\\', 'u', 'd', '8', '3', 'd', '\\', 'u', 'D', 'E', '0', '0')
 	case 17: // BMP non-ASCII character spelled as an escape with upper-case hex (U+00E9)
 		return append(val, 0xC3, 0xA9), append(sp, '\\', 'u', '0', '0', 'E', '9')
+	case 18:
+		// a backslash-u escape at a boundary of the encoding: first/last code point of each UTF-8 length and both
+		// neighbours of the surrogate range
+		cps := []int{0x7f, 0x80, 0x7ff, 0x800, 0xd7ff, 0xe000, 0xfffd, 0xffff}
+		cp := cps[vx.Choose(name+".cp", len(cps))]
+		hex := "0123456789abcdef"
+		sp = append(sp, '\\', 'u', hex[cp>>12&15], hex[cp>>8&15], hex[cp>>4&15], hex[cp&15])
+		return appendUTF8(val, cp), sp
 	}
 	panic("atom")
 }
@@ -67,4 +75,9 @@ const escMaskDefault = 1 | 1<<4 | 1<<11 | 1<<12
 func symEscStr(name string) *JV {
 	v, sp := escString(name, 1, vx.ParamOr("escmask", escMaskDefault))
 	return jStrSp(v, sp)
+}
+
+// symEscName: a one-atom member name from the escape alphabet (value, spelling).
+func symEscName(name string) ([]byte, []byte) {
+	return escString(name, 1, vx.ParamOr("escmask", escMaskDefault))
 }
